@@ -75,6 +75,17 @@ func worldWorkConn(w *World) {
 	if rr, got := c.register(f); !got || mstr(rr, "error") != "" {
 		w.Fail("register: %v", rr)
 	}
+	// the endpoint may have been given up and taken again before (a proxy closed and registered anew, a group
+	// emptied and formed again): users of the second incarnation are owed the same
+	for n := w.KnobPick("reregistrations", 0, 0, 1, 2); n > 0; n-- {
+		w.Probe("workconn.reregistered")
+		c.CloseProxy(pname)
+		c.syncStrong()
+		if rr, got := c.register(f); !got || mstr(rr, "error") != "" {
+			viol("bridge", "reregistration-refused", "the proxy was closed and registered again on the same session: refused: %v", rr)
+			return
+		}
+	}
 	c.smu.Lock()
 	c.WorkMode = mode
 	c.smu.Unlock()
@@ -90,17 +101,26 @@ func worldWorkConn(w *World) {
 		echoed   bool
 	}
 	nusers := w.KnobPick("nusers", 1, 2, 4, 8, 16)
-	results := make([]*userRes, nusers)
+	// users that arrive around the end of the session (below) share the routine
+	nlate := 0
+	if w.KnobBool("users_around_session_end", 50) {
+		nlate = w.KnobPick("late_users", 1, 3, 6)
+	}
+	results := make([]*userRes, nusers+nlate)
 	var wg sync.WaitGroup
+	var userRoutine func(i int, delay time.Duration)
 	for i := 0; i < nusers; i++ {
-		i := i
 		results[i] = &userRes{id: i}
 		wg.Add(1)
 		delay := time.Duration(r.Range(0, 400)) * time.Millisecond
 		if r.Intn(2) == 0 {
 			delay = 0
 		}
-		w.UserN.Go(func() {
+		i := i
+		w.UserN.Go(func() { userRoutine(i, delay) })
+	}
+	userRoutine = func(i int, delay time.Duration) {
+		{
 			defer wg.Done()
 			time.Sleep(delay)
 			u := results[i]
@@ -166,13 +186,13 @@ func worldWorkConn(w *World) {
 			} else {
 				u.err = fmt.Errorf("echo %q %v", echo, err)
 			}
-		})
+		}
 	}
 	wg.Wait()
 	time.Sleep(500 * time.Millisecond)
 
 	// user-side verdicts
-	for _, u := range results {
+	for _, u := range results[:nusers] {
 		w.Check("C11.user-bridged-or-closed")
 		if u.served != "" {
 			if u.served != c.Name+"/"+pname {
@@ -213,7 +233,7 @@ func worldWorkConn(w *World) {
 	starts := append([]startRec{}, c.Starts...)
 	c.smu.Unlock()
 	locals := map[string]bool{}
-	for _, u := range results {
+	for _, u := range results[:nusers] {
 		if u.local != "" {
 			locals[u.local] = true
 		}
@@ -242,7 +262,9 @@ func worldWorkConn(w *World) {
 	}
 
 	// surplus offers are refused and closed
+	surplusRan := false
 	if w.KnobBool("surplus", 60) {
+		surplusRan = true
 		c.smu.Lock()
 		c.WorkMode = wmNever
 		c.smu.Unlock()
@@ -276,7 +298,8 @@ func worldWorkConn(w *World) {
 	var lateOffers []net.Conn
 	var lmu sync.Mutex
 	stopOffers := make(chan struct{})
-	if w.KnobBool("offer_during_teardown", 70) {
+	// (raw offers nobody services: not together with users that may be bridged to them)
+	if w.KnobBool("offer_during_teardown", 70) && !(nlate > 0 && !surplusRan && mode == wmGood) {
 		c.Node.Go(func() {
 			for i := 0; i < 12; i++ {
 				select {
@@ -295,6 +318,23 @@ func worldWorkConn(w *World) {
 		})
 		time.Sleep(time.Duration(r.Range(0, 10)) * time.Millisecond)
 	}
+	// users that arrive just before, at, and just after the end of the session: each is served, refused, or closed
+	// in time - never left open without a peer, whatever the accept path was doing at that instant
+	// (only with a client that services what it offers: after the surplus phase the pool holds connections the
+	// scripted client ignores, and a user bridged to one of those has a peer - a silent one - as far as frps can tell)
+	if surplusRan || mode != wmGood {
+		nlate = 0
+	}
+	for j := 0; j < nlate; j++ {
+		i := nusers + j
+		results[i] = &userRes{id: i}
+		wg.Add(1)
+		delay := time.Duration(r.Range(0, 30)) * time.Millisecond
+		w.UserN.Go(func() { userRoutine(i, delay) })
+	}
+	if nlate > 0 {
+		time.Sleep(time.Duration(r.Range(0, 30)) * time.Millisecond)
+	}
 	if tcpMux {
 		// closing only the control stream keeps the transport usable for late offers
 		c.Ctl.Close()
@@ -302,6 +342,22 @@ func worldWorkConn(w *World) {
 		c.Ctl.Close()
 	}
 	w.Probe("workconn.session_end")
+	if nlate > 0 {
+		wg.Wait()
+		w.Check("C11.user-around-session-end")
+		for _, u := range results[nusers : nusers+nlate] {
+			if u.served != "" || u.closedAt == 0 {
+				continue // served, or never connected (refused)
+			}
+			lim := time.Duration(uct)*time.Second + slack + 400*time.Millisecond
+			if mode == wmDead {
+				lim = time.Duration(uct*(want+2))*time.Second + slack
+			}
+			if el := u.closedAt - u.start; el > lim {
+				viol("bridge", "user-left-without-peer-at-session-end", "a user that connected %v before/after the session ended (accept path %d) was left open for %v without a peer (userConnTimeout %ds): %v", u.start, path, el, uct, u.err)
+			}
+		}
+	}
 	time.Sleep(5 * time.Second)
 	close(stopOffers)
 	time.Sleep(time.Second)
